@@ -11,6 +11,8 @@
  *   G <piv> <claimed>   forgery: captured request <piv> with the partial IV field rewritten to <claimed> and one
  *                ciphertext bit flipped (claimed == piv: only the ciphertext is damaged)
  *   C            the client process "crashes" and restarts from the sequence number last handed to the save callback
+ * Every AEAD encryption either endpoint performs is logged at the crypto seam (key, nonce, what is protected): a (key, nonce)
+ * pair protects one message, whoever the sender is - requests of the client as well as responses of the server.
  *   E
  */
 #include "simnet.h"
@@ -83,6 +85,20 @@ static void on_tx(int node, coap_session_t *s, const sim_dgram_t *dg, sim_verdic
     }
   }
 }
+/* ---- the AEAD seam: one event per protection, by either endpoint ---- */
+int __real_coap_crypto_aead_encrypt(const coap_crypto_param_t *params, coap_bin_const_t *data, coap_bin_const_t *aad, uint8_t *result, size_t *max_result_len);
+int __wrap_coap_crypto_aead_encrypt(const coap_crypto_param_t *params, coap_bin_const_t *data, coap_bin_const_t *aad, uint8_t *result, size_t *max_result_len) {
+  int r = __real_coap_crypto_aead_encrypt(params, data, aad, result, max_result_len);
+  if (sim_trace && r) {
+    size_t i, nl = 15 - params->params.aes.l;
+    uint32_t m = sim_sig(aad->s, aad->length) * 31u + sim_sig(data->s, data->length);
+    fprintf(sim_trace, "{\"e\":\"Aead\",\"key\":%u,\"nonce\":[", sim_sig(params->params.aes.key.s, params->params.aes.key.length));
+    for (i = 0; i < nl; i++) fprintf(sim_trace, "%s%u", i ? "," : "", params->params.aes.nonce[i]);
+    fprintf(sim_trace, "],\"msg\":%u}\n", m & 0x3fffffffu);
+  }
+  return r;
+}
+
 static void on_peer_rx(const sim_dgram_t *dg) {
   if (dg->len >= 4) peer_code = dg->data[1];
 }
@@ -167,6 +183,7 @@ int main(int argc, char **argv) {
   sim_hooks.on_tx = on_tx;
   sim_hooks.on_peer_rx = on_peer_rx;
   sim_trace_io = 0;
+  sim_nested_wait = 1;   /* a client whose first protected request got no answer waits before the next one (coap_client_delay_first): in virtual time */
   while (fgets(line, sizeof(line), in)) {
     if (line[0] == 'X') {
       int id = 0, i;
